@@ -367,13 +367,15 @@ class Lib:
             f["ret"] = self.value_type()
         else:
             f["ret"] = "ptr"      # returns a pointer to the global slot
+        f["variadic"] = r.random() < 0.08
         fp0 = [k for k, p in enumerate(f["params"]) if p["k"] == "fnptr" and p["proto"] == 0]
-        if fp0 and r.random() < 0.5:
+        if fp0 and not f["variadic"] and r.random() < 0.5:
             f["ret"] = ("fnret", fp0[0], r.choice(["fn-typedef", "ptr-typedef"]))
         f["asm"] = None
         if self.special and r.random() < 0.12:
             f["asm"] = r.choice(["_%s" % re.sub(r"\W", "x", name), "renamed_%d" % i, "%s_" % re.sub(r"\W", "x", name)])
-        f["variadic"] = r.random() < 0.08
+            if f["asm"] == rust_name(name):
+                f["asm"] = "renamed_%d" % i      # (a label equal to the Rust name is the documented corner covered by a fixed case)
         if f["variadic"]:
             f["params"] = [{"k": "value", "ty": S_INT}] + [p for p in f["params"][:2] if p["k"] == "value" and isinstance(p["ty"], (Sc, En))]
             f["va"] = [r.choice(["i", "l", "d", "p"]) for _ in range(r.choice([0, 1, 3, 5]))]
@@ -693,3 +695,185 @@ class Lib:
         c += '    printf("call %d %%016" PRIx64 " %%016" PRIx64 "\\n", last_h, h); }\n' % ci
         rs += '    println!("call %d {:016x} {:016x}", last_h, h); }\n' % ci
         return c, rs
+
+
+# ------------------------------------------------------------------ C++ classes (methods, static methods, constructors, destructors)
+CPP_SCAL = [("int", "i", 32), ("double", "f64", 64), ("short", "i", 16), ("long long", "i", 64), ("char", "i", 8), ("bool", "bool", 1), ("float", "f32", 32), ("unsigned", "u", 32),
+            ("unsigned char", "u", 8), ("unsigned long", "u", 64)]
+
+
+class CppLib:
+    """header / definitions / C++ caller / Rust caller for a few classes; every member function folds `this` and its arguments"""
+    def __init__(self, r, ncls, namespaces):
+        self.r, self.ns_mode = r, namespaces
+        self.classes = []
+        for i in range(ncls):
+            c = {"name": "K%d" % i, "ns": r.choice([None, None, "na", "nb"]), "fields": [], "ctors": [], "methods": [], "dtor": r.random() < 0.5}
+            for k in range(r.choice([1, 2, 3])):
+                c["fields"].append(("f%d" % k, r.choice(CPP_SCAL)))
+            c["ctors"].append([("x", CPP_SCAL[0])])
+            if r.random() < 0.6:
+                c["ctors"].append([("x", CPP_SCAL[0]), ("y", r.choice(CPP_SCAL[:4]))])
+            names = []
+            for k in range(r.choice([1, 2, 4])):
+                nm = r.choice(["m%d" % k, "ov", "ov", "type", "get"])
+                ps = []
+                for q in range(r.choice([0, 1, 2, 3])):
+                    x = r.random()
+                    if x < 0.7:
+                        ps.append(("p%d" % q, r.choice(CPP_SCAL)))
+                    elif x < 0.85:
+                        ps.append(("p%d" % q, "cref"))
+                    else:
+                        ps.append(("p%d" % q, "ptr"))
+                sig = (nm, tuple(p[1][0] if isinstance(p[1], tuple) else p[1] for p in ps))
+                if sig in names:
+                    continue
+                names.append(sig)
+                # overloads of one name share constness / staticness (mixed ones make exact-typed calls ambiguous in C++)
+                prev = next((m for m in c["methods"] if m["name"] == nm), None)
+                c["methods"].append({"name": nm, "params": ps, "ret": r.choice(CPP_SCAL + [None]), "const": prev["const"] if prev else r.random() < 0.4,
+                                     "static": prev["static"] if prev else r.random() < 0.2, "seed": r.getrandbits(40) | 1})
+            self.classes.append(c)
+
+    def cpp_ty(self, c):
+        return ("%s::%s" % (c["ns"], c["name"])) if c["ns"] else c["name"]
+
+    def rs_ty(self, c):
+        if self.ns_mode:
+            return ("root::%s::%s" % (c["ns"], c["name"])) if c["ns"] else "root::" + c["name"]
+        return ("%s_%s" % (c["ns"], c["name"])) if c["ns"] else c["name"]
+
+    def pdecl(self, c, p):
+        n, t = p
+        if t == "cref":
+            return "const %s &%s" % (c["name"], n)
+        if t == "ptr":
+            return "%s *%s" % (c["name"], n)
+        return "%s %s" % (t[0], n)
+
+    def mproto(self, c, m, qualified=False):
+        ret = "void" if m["ret"] is None else m["ret"][0]
+        nm = ("%s::%s" % (c["name"], m["name"])) if qualified else m["name"]
+        return "%s%s %s(%s)%s" % ("static " if m["static"] and not qualified else "", ret, nm, ", ".join(self.pdecl(c, p) for p in m["params"]), " const" if m["const"] and not m["static"] else "")
+
+    def header(self):
+        s = "extern int ctor_count;\nextern int dtor_count;\nextern unsigned long long last_h;\n"
+        for c in self.classes:
+            body = "".join("  %s %s;\n" % (t[0], n) for n, t in c["fields"])
+            for ps in c["ctors"]:
+                body += "  %s(%s);\n" % (c["name"], ", ".join("%s %s" % (t[0], n) for n, t in ps))
+            if c["dtor"]:
+                body += "  ~%s();\n" % c["name"]
+            for m in c["methods"]:
+                body += "  %s;\n" % self.mproto(c, m)
+            cls = "class %s {\npublic:\n%s};\n" % (c["name"], body)
+            s += ("namespace %s {\n%s}\n" % (c["ns"], cls)) if c["ns"] else cls
+        return s
+
+    def fold_field(self, expr, t):
+        if t[1] == "f64":
+            return "{ double v_ = %s; unsigned long long b_; memcpy(&b_, &v_, 8); F(b_); }" % expr
+        if t[1] == "f32":
+            return "{ float v_ = %s; unsigned b_; memcpy(&b_, &v_, 4); F(b_); }" % expr
+        return "F(%s);" % expr
+
+    def lib_cpp(self):
+        s = '#include "lib.hpp"\n#include <string.h>\n#define F(v) do { h = (h ^ (unsigned long long)(v)) * 1099511628211ULL; } while (0)\nint ctor_count, dtor_count; unsigned long long last_h;\n'
+        for c in self.classes:
+            body = ""
+            for ps in c["ctors"]:
+                init = []
+                for k, (n, t) in enumerate(c["fields"]):
+                    src = ps[k % len(ps)][0]
+                    init.append("%s = (%s)(%s + %d);" % (n, t[0], src, k) if t[1] != "bool" else "%s = (%s != 0);" % (n, src))
+                body += "%s::%s(%s) { %s ctor_count += %d; }\n" % (c["name"], c["name"], ", ".join("%s %s" % (t[0], n) for n, t in ps), " ".join(init), len(ps))
+            if c["dtor"]:
+                body += "%s::~%s() { dtor_count += 1 + (int)%s; }\n" % (c["name"], c["name"], c["fields"][0][0] if c["fields"][0][1][1] in "iu" else "0")
+            for m in c["methods"]:
+                b = "unsigned long long h = %dULL;\n" % m["seed"]
+                if not m["static"]:
+                    for n, t in c["fields"]:
+                        b += "  " + self.fold_field("this->" + n, t) + "\n"
+                for n, t in m["params"]:
+                    if t == "cref":
+                        b += "".join("  " + self.fold_field("%s.%s" % (n, fn), ft) + "\n" for fn, ft in c["fields"])
+                    elif t == "ptr":
+                        b += "  if (%s) { %s } else F(0);\n" % (n, " ".join(self.fold_field("%s->%s" % (n, fn), ft) for fn, ft in c["fields"]))
+                    else:
+                        b += "  " + self.fold_field(n, t) + "\n"
+                if not m["const"] and not m["static"] and c["fields"][0][1][1] in "iu":
+                    b += "  this->%s = (%s)(h >> 9);\n" % (c["fields"][0][0], c["fields"][0][1][0])
+                b += "  last_h = h;\n"
+                if m["ret"] is not None:
+                    r_ = m["ret"]
+                    b += "  return %s;\n" % ("(h >> 4) & 1" if r_[1] == "bool" else ("(%s)((double)(long long)((h >> 5) %% 4096) - 2048.0) / 8" % r_[0] if r_[1] in ("f32", "f64") else "(%s)(h >> 3)" % r_[0]))
+                body += "%s {\n  %s}\n" % (self.mproto(c, m, True), b)
+            s += ("namespace %s {\n%s}\n" % (c["ns"], body)) if c["ns"] else body
+        return s
+
+    def callers(self):
+        r = self.r
+        cpp = '#include "lib.hpp"\n#include <stdio.h>\n#include <string.h>\n#define F(v) do { h = (h ^ (unsigned long long)(v)) * 1099511628211ULL; } while (0)\nint main() {\n'
+        rs = "#![allow(warnings)]\ninclude!(\"bindings.rs\");\nmacro_rules! F { ($h:ident, $v:expr) => { $h = ($h ^ (($v) as u64)).wrapping_mul(1099511628211u64); } }\nfn main() { unsafe {\n"
+        if self.ns_mode:
+            rs += "use root::*;\n"
+        sc = lambda t: Sc(t[0], t[1], t[2])
+        line = 0
+        for ci, c in enumerate(self.classes):
+            # overload numbering per Rust name, in declaration order (constructors: new, new1, ...)
+            seen = {}
+            rnames = []
+            for m in c["methods"]:
+                # the overload number is appended to the C++ name, the result is then made a Rust identifier (`type`, `type` -> `type_`, `type1`)
+                k = seen.get(m["name"], 0)
+                seen[m["name"]] = k + 1
+                rnames.append(rust_name(m["name"] if k == 0 else "%s%d" % (m["name"], k)))
+            objs = []
+            for k, ps in enumerate(c["ctors"]):
+                vals = [scalar_value(r, sc(t)) for _, t in ps]
+                o = "o%d_%d" % (ci, k)
+                cpp += "  %s %s(%s);\n" % (self.cpp_ty(c), o, ", ".join("(%s)%s" % (t[0], c_lit(sc(t), v)) for (_, t), v in zip(ps, vals)))
+                rs += "  let mut %s = %s::%s(%s);\n" % (o, self.rs_ty(c), "new" if k == 0 else "new%d" % k, ", ".join(rs_lit(sc(t), v) for (_, t), v in zip(ps, vals)))
+                objs.append(o)
+            for mi, m in enumerate(c["methods"]):
+                for rep in range(2):
+                    o = r.choice(objs)
+                    other = r.choice(objs)
+                    ca, ra = [], []
+                    for n, t in m["params"]:
+                        if t == "cref":
+                            ca.append(other)
+                            ra.append("&%s" % other)
+                        elif t == "ptr":
+                            if r.random() < 0.3:
+                                ca.append("(%s *)0" % self.cpp_ty(c))
+                                ra.append("::std::ptr::null_mut()")
+                            else:
+                                ca.append("&" + other)
+                                ra.append("&mut %s as *mut _" % other if other != o else "::std::ptr::null_mut()")
+                                if other == o:
+                                    ca[-1] = "(%s *)0" % self.cpp_ty(c)
+                        else:
+                            v = scalar_value(r, sc(t))
+                            ca.append("(%s)%s" % (t[0], c_lit(sc(t), v)))     # exact argument types: overload resolution must not be ambiguous
+                            ra.append(rs_lit(sc(t), v))
+                    ccall = ("%s::%s(%s)" % (self.cpp_ty(c), m["name"], ", ".join(ca))) if m["static"] else "%s.%s(%s)" % (o, m["name"], ", ".join(ca))
+                    rcall = ("%s::%s(%s)" % (self.rs_ty(c), rnames[mi], ", ".join(ra))) if m["static"] else "%s.%s(%s)" % (o, rnames[mi], ", ".join(ra))
+                    if m["ret"] is None:
+                        cpp += "  { %s; unsigned long long h = 3;" % ccall
+                        rs += "  { %s; let mut h: u64 = 3;" % rcall
+                    else:
+                        t = m["ret"]
+                        cpp += "  { %s r_ = %s; unsigned long long h = 3; %s" % (t[0], ccall, self.fold_field("r_", t))
+                        rs += "  { let r_ = %s; let mut h: u64 = 3; F!(h, %s);" % (rcall, "r_.to_bits()" if t[1] in ("f32", "f64") else "r_")
+                    cpp += ' printf("line %d %%016llx %%016llx\\n", last_h, h); }\n' % line
+                    rs += ' println!("line %d {:016x} {:016x}", last_h, h); }\n' % line
+                    line += 1
+            if c["dtor"]:
+                for o in objs:
+                    rs += "  %s.destruct();\n" % o
+        # C++ destroys the objects at scope exit; count constructor calls now, destructor effects after an inner scope is not needed:
+        cpp += '  printf("ctors %d\\n", ctor_count);\n  return 0;\n}\n'
+        rs += '  println!("ctors {}", ctor_count);\n} }\n'
+        return cpp, rs
